@@ -208,8 +208,10 @@ class Operation(ABC):
                 backed_grad = np.array(backed_grad, copy=False)
 
             if self.where is not True:
-                # the product of 0-d arrays is a numpy-scalar, not an array
-                backed_grad = np.asarray(backed_grad * self.where)
+                # select rather than scale: 0 * nan (or inf) is nan
+                backed_grad = np.where(
+                    self.where, backed_grad, np.zeros((), dtype=backed_grad.dtype)
+                )
 
             backed_grad = self.grad_post_process_fn(backed_grad, var.shape)
             assert backed_grad.shape == var.shape, (backed_grad.shape, var.shape)
